@@ -613,10 +613,11 @@ func r16_4(c *Ctx, a *c16anchors) {
 			n := 0
 			allInstrs(f, func(_ *ssa.BasicBlock, _ int, in ssa.Instruction) {
 				call, ok := in.(*ssa.Call)
-				if !ok || call.Call.IsInvoke() {
+				if !ok || call.Call.IsInvoke() || staticCallee(call) == f {
 					return
 				}
-				if _, ok := isFieldLoad(call.Call.Value, a.stmtFn); ok {
+				_, direct := isFieldLoad(call.Call.Value, a.stmtFn)
+				if direct || reachesStmtFn(staticCallee(call), a, 0) {
 					n++
 					c.check(instrDominates(push, call), fmt.Sprintf("%s: push dominates statement parse #%d", key, n), call.Pos(), "statement parsed inside the block context", "a statement of the block is parsed before the block context is pushed")
 				}
@@ -853,4 +854,30 @@ func unwrapDeferResult(v ssa.Value) ssa.Value {
 		}
 	}
 	return v
+}
+
+// reachesStmtFn: g (a function of package parser other than the block parser's own recursion) calls through the
+// statement function field, directly or through static calls inside the package.
+func reachesStmtFn(g *ssa.Function, a *c16anchors, depth int) bool {
+	if g == nil || g.Blocks == nil || depth > 2 || g.Pkg == nil || g.Pkg.Pkg.Path() != modPath+"/parser" {
+		return false
+	}
+	found := false
+	allInstrs(g, func(_ *ssa.BasicBlock, _ int, in ssa.Instruction) {
+		call, ok := in.(*ssa.Call)
+		if !ok || call.Call.IsInvoke() || found {
+			return
+		}
+		if _, ok := isFieldLoad(call.Call.Value, a.stmtFn); ok {
+			found = true
+			return
+		}
+		if cal := staticCallee(call); cal != nil && cal != g && len(cal.Params) > 0 && cal.Signature.Recv() != nil && cal.Signature.Results().Len() <= 1 && depth < 2 {
+			// only small private helpers are followed
+			if obj := cal.Object(); obj != nil && !obj.Exported() && reachesStmtFn(cal, a, depth+1) {
+				found = true
+			}
+		}
+	})
+	return found
 }
